@@ -58,6 +58,16 @@ def getCollectionValue(collection, what, pos=None):
         )
 
 
+def positioned(convert, pos):
+    """Run a conversion that may raise a runtime error without position."""
+    try:
+        return convert()
+    except CklRuntimeError as e:
+        if e.pos is None:
+            e.pos = pos
+        raise
+
+
 def toIndex(value, pos):
     try:
         return int(value.value)
@@ -123,9 +133,10 @@ def invoke(fn, names_, args, environment, pos):
     try:
         return fn.execute(args_, environment, pos)
     except CklRuntimeError as e:
-        if e.pos is None:
-            # raised by a conversion or a helper that does not know where
-            # it was called from: the call is where it happened
+        if e.pos is None and not hasattr(fn, "lexicalEnv"):
+            # raised by a conversion or a helper of a native function,
+            # which does not know where it was called from: the call is
+            # where it happened (nodes of a user function know better)
             e.pos = pos
         e.stacktrace.append(getFuncallString(fn, args_) + " " + str(pos))
         raise
@@ -574,7 +585,7 @@ class NodeDeref:
             return value.getItem(idx)
 
         if value.isObject():
-            member = idx.asString().value
+            member = positioned(idx.asString, self.pos).value
             holder = value.findHolder(member)
             if holder is None:
                 if self.default_value:
@@ -646,7 +657,7 @@ class NodeDerefAssign:
             return container
 
         if container.isObject():
-            container.value[idx.asString().value] = value
+            container.value[positioned(idx.asString, self.pos).value] = value
             return container
 
         raise CklRuntimeError(
